@@ -171,7 +171,7 @@ def tree_nodes(node):
 
 
 def has_probe(node):
-    return any(n["t"] in ("probe", "semseg_probe") for n in tree_nodes(node))
+    return any(n["t"] in ("probe", "semseg_probe", "plain") for n in tree_nodes(node))
 
 
 def build_tree(node):
